@@ -108,8 +108,12 @@ func (lc locCase) source() string {
 
 // reportedLine runs the program from a file and returns the 1-based line of the error location.
 func reportedLine(c *vh.Ctx, lc locCase, n int) (line int, what string) {
-	path := filepath.Join(c.Scratch, fmt.Sprintf("loc%d.%s", n, lc.Ext))
-	os.WriteFile(path, []byte(lc.source()), 0o644)
+	return reportedAt(c, lc.source(), lc.Ext, n)
+}
+
+func reportedAt(c *vh.Ctx, src, ext string, n int) (line int, what string) {
+	path := filepath.Join(c.Scratch, fmt.Sprintf("loc%d.%s", n, ext))
+	os.WriteFile(path, []byte(src), 0o644)
 	defer os.Remove(path)
 	env := vh.NewEnv()
 	var ctl data.Control
